@@ -1,5 +1,6 @@
 import BeffVerif.Props.C01
 import BeffVerif.Props.C01Frag
+import BeffVerif.Props.Consts
 open BeffVerif.C01
 #print axioms keyword_types_exact
 #print axioms string_literal_exact
@@ -14,3 +15,4 @@ open BeffVerif.C01
 #print axioms BeffVerif.C01F.frag_chain
 #print axioms BeffVerif.C01F.fragment_compiles
 #print axioms BeffVerif.C01F.fragment_exact
+#print axioms BeffVerif.Consts.typed_array_kinds_current
